@@ -19,7 +19,7 @@ def budget(tier):
     return 1500 if tier == "quick" else 40000
 
 
-_gaps = st.one_of(st.sampled_from([0, 0, 1, 1, 2, 2, 3, 3, 4, 4, 5, 1000, 1001, 4999, 5000, 5001, 60000]), st.integers(0, 7000))
+_gaps = st.one_of(st.sampled_from([0, 0, 1, 1, 2, 2, 3, 3, 4, 4, 5, 1000, 1001, 4999, 5000, 5001, 60000, 50, 99, 86_400_000, 86_402_000, 2 * 86_400_000 + 1]), st.integers(0, 7000))
 _lens = st.one_of(st.sampled_from([0, 1, 1, 2, 3, 5, 1000]), st.integers(0, 20), st.integers(0, 6000))
 
 
